@@ -685,3 +685,84 @@ func xcHas(v string, c byte) bool {
 	}
 	return false
 }
+
+// verif_C11_mail_multi: MAIL with two or three parameters in every order of
+// appearance, under both iteration orders of the parameter map (Go leaves map
+// order unspecified; natively the transaction is repeated so that both orders
+// are likely to occur). Every option must arrive exactly, the others zero.
+func verif_C11_mail_multi() {
+	params := []string{"SIZE=12", "BODY=8BITMIME", "AUTH=x@y", "ENVID=e1", "RET=FULL", "SMTPUTF8", "AUTH=<>"}
+	i1 := verifChoice(len(params))
+	i2 := verifChoice(len(params))
+	i3 := verifChoice(len(params) + 1)
+	idx := []int{i1, i2}
+	if i3 < len(params) {
+		idx = append(idx, i3)
+	}
+	keyOf := func(p string) string {
+		for j := 0; j < len(p); j++ {
+			if p[j] == '=' {
+				return p[:j]
+			}
+		}
+		return p
+	}
+	for a := 0; a < len(idx); a++ {
+		for b := a + 1; b < len(idx); b++ {
+			assume(keyOf(params[idx[a]]) != keyOf(params[idx[b]]))
+		}
+	}
+	rev := nondetBool()
+	verifMapOrder(rev)
+	line := "MAIL FROM:<a@v>"
+	want := MailOptions{}
+	var wantAuth *string
+	for _, k := range idx {
+		line += " " + params[k]
+		switch k {
+		case 0:
+			want.Size = 12
+		case 1:
+			want.Body = Body8BitMIME
+		case 2:
+			v := "x@y"
+			wantAuth = &v
+		case 3:
+			want.EnvelopeID = "e1"
+		case 4:
+			want.Return = DSNReturnFull
+		case 5:
+			want.UTF8 = true
+		case 6:
+			v := ""
+			wantAuth = &v
+		}
+	}
+	rounds := 1
+	if !verifSymbolic() {
+		rounds = 16
+	}
+	for r := 0; r < rounds; r++ {
+		be := &vbackend{}
+		srv, _ := verifServer(be)
+		srv.EnableDSN, srv.EnableSMTPUTF8 = true, true
+		vc, _, _ := verifServe(srv, []byte("EHLO c\r\n"+line+"\r\n"), io.EOF)
+		code := verifNthReplyCode(vc.out, 2)
+		got := verifLastMailOpts(be)
+		if r == 0 {
+			verifObserve("c11mm", line, rev, code, got != nil)
+		}
+		verifAssert(code == 250 && got != nil, "C11.multi-parameter-line-accepted")
+		if got == nil {
+			return
+		}
+		verifAssert(got.Size == want.Size && got.Body == want.Body && got.UTF8 == want.UTF8 && !got.RequireTLS &&
+			got.Return == want.Return && got.EnvelopeID == want.EnvelopeID, "C11.multi-options-exact")
+		if wantAuth == nil {
+			verifAssert(got.Auth == nil, "C11.multi-auth-unset")
+		} else {
+			verifAssert(got.Auth != nil && *got.Auth == *wantAuth, "C11.multi-auth-exact")
+		}
+	}
+	verifReach("C11.multi-end")
+}
